@@ -126,11 +126,15 @@ package client
 //@ func (*SCIONClient).measureClockOffsetSCION
 //@   noframe
 //@   requires c != nil && mtrcs != nil && c.Log != nil && path != nil
-//@   requires !c.Auth.NTSEnabled
+//@   requires c.Auth.NTSEnabled ==> c.Auth.NTSKEFetcher.Log != nil && c.Auth.NTSKEFetcher.VerifKeysOK()
 //@   requires localAddr.Host != nil && remoteAddr.Host != nil && (len(remoteAddr.Host.IP) == 4 || len(remoteAddr.Host.IP) == 16)
 //@   requires c.Auth.Enabled ==> c.Auth.DRKeyFetcher != nil
 //@   requires c.Auth.opt != nil ==> len(c.Auth.opt.OptData) == 28
-//@   maypanic errUnexpectedAddrType
+// panic(errUnexpectedAddrType): the first site concerns the configured local address (declared refusal); the second the
+// remote address, which without NTS is the configured one (stated assumption below) but with NTS is whatever the
+// key-exchange server named - there the panic must be unreachable.
+//@   maypanic errUnexpectedAddrType #0
+//@   callsite netip.AddrFromSlice 2 scope !c.Auth.NTSEnabled ==> len(remoteAddr.Host.IP) == 4 || len(remoteAddr.Host.IP) == 16
 //@   loop 0 invariant calls("ntp.ClockOffset") == 0
 //@   loop 0 invariant c.prev.cTxTime == before(c.prev.cTxTime) && c.prev.cRxTime == before(c.prev.cRxTime) && c.prev.sRxTime == before(c.prev.sRxTime)
 // Same clauses as for the IP client, over the packet as decoded (lastreadof(udpLayer).Payload is the NTP payload):
